@@ -611,7 +611,8 @@ def itermergeduplicates(table, key, missing):
     # do the work
     for k, grp in rowgroupby(it, key):
         grp = list(grp)
-        if isinstance(key, string_types):
+        if isinstance(key, string_types) or len(key) == 1:
+            # N.B., a one-element key gives a bare value, not a 1-tuple
             outrow = [k]
         else:
             outrow = list(k)
